@@ -31,6 +31,9 @@ pub struct Model {
     pub locks: BTreeMap<NoteKey, (u8, u32)>,
     /// pending transactions stored through store_transactions_to_be_sent
     pub stored: BTreeSet<usize>,
+    /// transparent coins whose transaction a rewind un-mined in the wallet (nothing re-mines them:
+    /// compact blocks carry no transparent data and the explorer does not put them again)
+    pub utxo_unmined: BTreeSet<usize>,
 }
 
 #[derive(Clone, Debug, PartialEq, Eq, Hash, PartialOrd, Ord, Serialize, Deserialize)]
@@ -56,10 +59,24 @@ pub enum Op {
 }
 
 /// The note sets offered to `Lock` (by label).
-pub const LOCK_SETS: [&[&str]; 5] = [&["s60"], &["s70", "o200"], &["o1m"], &["s60", "b1"], &["i50", "s40", "e10"]];
+pub const LOCK_SETS: [&[&str]; 5] = [&["s60"], &["s70", "o200", "t80"], &["o1m"], &["s60", "b1"], &["i50", "s40", "e10", "tb"]];
 
 pub fn lock_set(env: &Env, i: usize) -> Vec<NoteKey> {
-    LOCK_SETS[i].iter().map(|l| NoteKey::U(env.u.labels[l])).collect()
+    LOCK_SETS[i].iter().map(|l| env.u.labels.get(l).map(|i| NoteKey::U(*i)).unwrap_or_else(|| NoteKey::T(env.utxos.iter().position(|t| t.label == *l).expect("lock set label")))).collect()
+}
+
+/// Ground-truth view of one transparent coin in a model state.
+#[derive(Clone, Debug)]
+pub struct UtxoView {
+    pub key: NoteKey,
+    pub owner: Owner,
+    pub value: u64,
+    pub hash: [u8; 32],
+    /// the wallet was told about it
+    pub known: bool,
+    /// mined (as far as the wallet was told and no rewind went below it)
+    pub mined: Option<u32>,
+    pub lock: Option<(u8, u32)>,
 }
 
 /// Ground-truth view of one wallet note in a model state.
@@ -86,7 +103,12 @@ pub struct NoteView {
 impl Model {
     pub fn start(env: &Env, i: usize) -> Model {
         let (_, _, gap, tip) = &env.starts[i];
-        let mut m = Model { chain: ChainDesc { base_upto: uni::T0, dynb: vec![] }, tip: *tip, gap: *gap, seen: BTreeSet::new(), locks: BTreeMap::new(), stored: BTreeSet::new() };
+        let mut m = Model { chain: ChainDesc { base_upto: uni::T0, dynb: vec![] }, tip: *tip, gap: *gap, seen: BTreeSet::new(), locks: BTreeMap::new(), stored: BTreeSet::new(), utxo_unmined: BTreeSet::new() };
+        for (i, t) in env.utxos.iter().enumerate() {
+            if t.height <= *tip {
+                m.seen.insert(NoteKey::T(i));
+            }
+        }
         match gap {
             None => m.mark_seen(env, uni::F, *tip),
             Some((a, b)) => {
@@ -196,6 +218,18 @@ impl Model {
         v
     }
 
+    pub fn utxo_views(&self, env: &Env) -> Vec<UtxoView> {
+        env.utxos
+            .iter()
+            .enumerate()
+            .map(|(i, t)| {
+                let key = NoteKey::T(i);
+                let known = self.seen.contains(&key);
+                UtxoView { key, owner: t.owner, value: t.value, hash: t.hash, known, mined: (known && !self.utxo_unmined.contains(&i) && t.height <= self.tip).then_some(t.height), lock: self.locks.get(&key).copied() }
+            })
+            .collect()
+    }
+
     /// Notes currently locked for selection (documented: `lock_expiry_height >= target_height`).
     pub fn locked_now(&self, env: &Env, acct: Owner) -> BTreeSet<NoteKey> {
         let t = self.target();
@@ -207,6 +241,7 @@ pub fn note_owner(env: &Env, k: NoteKey) -> Owner {
     match k {
         NoteKey::U(i) => env.u.notes[i].owner,
         NoteKey::D(..) => Owner::A,
+        NoteKey::T(i) => env.utxos[i].owner,
     }
 }
 
@@ -436,6 +471,11 @@ pub fn apply(env: &Env, w: &mut Wallet, m: &Model, op: &Op) -> Result<Step, Stri
                         return Err(format!("truncate_to_height({h}) reported truncation to {r}"));
                     }
                     n.tip = r;
+                    for (i, t) in env.utxos.iter().enumerate() {
+                        if t.height > r && m.seen.contains(&NoteKey::T(i)) {
+                            n.utxo_unmined.insert(i);
+                        }
+                    }
                     if r <= n.chain.base_upto {
                         n.chain.dynb.clear();
                     } else {
